@@ -88,10 +88,16 @@ Reads == UNION {PointReads(via, h) \cup RangeReads(via, h) : via \in {"lazy", "c
 NodeA(r) == ReadA(St, r, Dev)      \* node A: cache on, as the code has it
 NodeB(r) == ReadB(St, r)           \* node B: cache off (the oracle)
 
-\* a read that the cache does not serve is answered by the tree on both nodes (CachedRead), so
-\* only served reads can disagree
+\* A read that the cache does not serve is answered by the tree on both nodes (CachedRead), so only
+\* reads at served heights can disagree; ServedReads is Reads restricted to them (cheaper for TLC).
 Served(r) == SafeToRead(cache, r.h)
-Disagreements == {r \in Reads : Served(r) /\ NodeA(r) # NodeB(r)}
+ServedHeights == {h \in 0..Height : SafeToRead(cache, h)}
+ServedReads ==
+    UNION {PointReads(via, h) \cup RangeReads(via, h) : via \in {"lazy", "cms"}, h \in ServedHeights \ {0}}
+    \cup (IF Height \in ServedHeights
+           THEN UNION {PointReads(via, Height) \cup RangeReads(via, Height) : via \in {"work", "workc"}}
+           ELSE {})
+Disagreements == {r \in ServedReads : NodeA(r) # NodeB(r)}
 
 \* ---- the property ----
 C10_CacheTransparent == Disagreements = {}
